@@ -16,6 +16,8 @@ CONSTANTS
   BadKind = ""
   Budgets = {99}
   HalfClosed = FALSE
+  UpgAt = 0
+  DEV_UpgradeDropsWbuf = FALSE
   KaOn = FALSE
   DEV_CtxShared = FALSE
   DEV_PopIgnoresClose = TRUE
